@@ -342,6 +342,7 @@ class Check(object):
             "trusted_base": self.trusted,
             "distribution": self.counts,
             "known_findings_hit": sorted(self.known_hit),
+            "source_tree": self.tree(),        # which /repo working tree this run read (path, HEAD, modified files under amoco/)
         })
         if explanation:
             cov["explanation"] = explanation
